@@ -433,3 +433,209 @@ def sample_goal_shards(ctx, name: str, goals, unfold, nshards: int = 4) -> list[
     with ThreadPoolExecutor(len(shards) or 1) as ex:
         res = list(ex.map(lambda a: vlib.sample_goals(ctx, f"{name}_{a[0]}", req, a[1], unfold), enumerate(shards)))
     return [g[0] for g in goals0 if g not in finite] + [lbl for r in res for (lbl, _e, _v) in r]
+
+
+# ---------------------------------------------------------------------------------------------
+# the SEQUENCE dimension: results must not depend on earlier calls (module-level caches keyed on an aggregate)
+# ---------------------------------------------------------------------------------------------
+SEQ_KINDS = ["swapped spacings", "same mean spacing", "same volume", "same longest side", "same shape only"]
+
+
+def collision_groups(rng: random.Random, n: int) -> list[dict]:
+    """groups of two grids that share the shape and one aggregate of the geometry (mean spacing, volume, longest side,
+    every symmetric function of the spacings, or nothing but the shape) but differ per axis; distinct groups have
+    distinct shapes, so that only the members of one group can be confused with each other"""
+    groups, shapes = [], set()
+    while len(groups) < n:
+        kind = SEQ_KINDS[len(groups) % len(SEQ_KINDS)]
+        d = rng.choice([2, 2, 3])
+        if kind == "swapped spacings":
+            shape = [rng.randrange(4, 13)] * d
+        else:
+            shape = [rng.randrange(4, 13) for _ in range(d)]
+        if tuple(shape) in shapes:
+            continue
+        shapes.add(tuple(shape))
+        a = [math.ldexp(rng.randrange(4, 17), -2) for _ in range(d)]  # dyadic spacings 1 .. 4
+        if len(set(a)) == 1:
+            a[0] *= 2
+        if kind == "swapped spacings":
+            b = a[::-1] if a[::-1] != a else a[1:] + a[:1]
+        elif kind == "same mean spacing":
+            b = [sum(a) / d] * d
+        elif kind == "same volume":
+            b = [2 * a[0], a[1] / 2] + a[2:]
+        elif kind == "same longest side":
+            j = max(range(d), key=lambda i_: shape[i_] * a[i_])
+            b = [x if i_ == j else x / 2 for i_, x in enumerate(a)]
+        else:
+            b = [x * rng.choice([0.5, 2.0, 3.0]) for x in a]
+        if b == a:
+            b = [2 * x for x in a]
+        # the same data on both grids: two waves of different amplitude (a unique highest mode) on an offset
+        waves = []
+        for amp in (1.0, 0.4):
+            q = [rng.randrange(-(m_ // 3), m_ // 3 + 1) for m_ in shape]
+            if not any(q):
+                q[rng.randrange(d)] = 1
+            waves.append({"q": q, "amp": amp, "phase": rng.randrange(0, 64) / 10.0})
+        members = [{"shape": shape, "h": h, "origin": [0.0] * d, "place": "origin", "periodic": [True] * d,
+                    "dtype": "float64", "kind": "waves", "waves": waves, "offset": 0.3} for h in (a, b)]
+        groups.append({"kind": kind, "members": members})
+    return groups
+
+
+def seq_calls(c: dict, family: str = "all") -> dict:
+    """every observable of C16 / C17 for one case, as JSON-able lists (exceptions and wrong kinds as strings)"""
+    from droplets.image_analysis import get_length_scale, get_structure_factor
+    quiet()
+    f = make_field(c)
+    bin_ = TWO_PI / float(f.grid.cuboid.size.max())
+    out = {}
+
+    def rec(name, fn):
+        if family != "all" and name.startswith("structure factor") != (family == "structure factor"):
+            return
+        try:
+            v = fn()
+            if isinstance(v, tuple):
+                v = [np.asarray(x, dtype=float).tolist() for x in v]
+            else:
+                v = float(v)
+        except Exception as e:  # noqa: BLE001
+            v = f"raised {type(e).__name__}"
+        out[name] = v
+
+    rec("structure factor (unsmoothed)", lambda: get_structure_factor(f, smoothing=None))
+    rec("structure factor (auto)", lambda: get_structure_factor(f))
+    rec("structure factor (requested wave numbers, add_zero)",
+        lambda: get_structure_factor(f, smoothing=0.5 * bin_, wave_numbers=[bin_, 2.5 * bin_], add_zero=True))
+    rec("structure_factor_mean", lambda: get_length_scale(f, method="structure_factor_mean"))
+    rec("structure_factor_maximum", lambda: get_length_scale(f, method="structure_factor_maximum"))
+    rec("structure_factor_maximum (0.5 bins)", lambda: get_length_scale(f, method="structure_factor_maximum", smoothing=0.5 * bin_))
+    rec("droplet_detection", lambda: get_length_scale(f, method="droplet_detection", threshold="extrema"))
+    return out
+
+
+def failing_calls() -> list[str]:
+    """calls that raise (documented errors); the state afterwards must not influence later results"""
+    from pde import PolarSymGrid, ScalarField
+    from droplets.image_analysis import get_length_scale, get_structure_factor
+    out = []
+    f = ScalarField(PolarSymGrid(3, 4), 1.0)
+    for fn in (lambda: get_structure_factor(f), lambda: get_structure_factor("not a field"),
+               lambda: get_length_scale(ScalarField(make_grid([4, 4], [1.0, 1.0], [0.0, 0.0]), 1.0), method="no such method")):
+        try:
+            fn()
+            out.append("no exception")
+        except Exception as e:  # noqa: BLE001
+            out.append(type(e).__name__)
+    return out
+
+
+def same_result(a, b) -> bool:
+    """equality of two seq_calls entries: identical strings, or numbers / arrays equal up to 1e-12 (nan == nan)"""
+    if isinstance(a, str) or isinstance(b, str):
+        return a == b
+    x, y = np.asarray(a, dtype=float), np.asarray(b, dtype=float)
+    if x.shape != y.shape:
+        return False
+    both_nan = np.isnan(x) & np.isnan(y)
+    with np.errstate(invalid="ignore"):
+        close = (x == y) | (np.abs(x - y) <= 1e-12 * np.maximum(np.abs(x), np.abs(y)))
+    return bool(np.all(both_nan | close))
+
+
+def start_fresh_references(groups: list[dict], family: str = "all"):
+    """one fresh interpreter per member position: process j evaluates member j of every group before any other grid
+    of that group, i.e. in a state in which no grid sharing its aggregates has been seen (runs concurrently with the
+    rest of the check)"""
+    import json
+    import subprocess
+    import sys
+    procs = []
+    for j in range(2):
+        order = [[g_, j] for g_ in range(len(groups))] + [[g_, 1 - j] for g_ in range(len(groups))]
+        p = subprocess.Popen([sys.executable, __file__], stdin=subprocess.PIPE, stdout=subprocess.PIPE,
+                             stderr=subprocess.DEVNULL, text=True)
+        p.stdin.write(json.dumps({"groups": groups, "order": order, "family": family}))
+        p.stdin.close()
+        procs.append(p)
+    return procs
+
+
+def collect_fresh_references(procs, groups) -> tuple[dict, list]:
+    """-> ({(group, member): results of the first evaluation in a fresh state}, [(group, member, call, later, first)]
+    for members evaluated SECOND in a reference process whose result differs from the fresh one)"""
+    import json
+    outs = []
+    for p in procs:
+        txt = p.stdout.read()
+        p.wait()
+        outs.append(json.loads(txt) if p.returncode == 0 and txt.strip() else None)
+    if any(o is None for o in outs):
+        raise RuntimeError("reference interpreter failed")
+    first, later = {}, {}
+    for j, res in enumerate(outs):
+        for g_ in range(len(groups)):
+            first[(g_, j)] = res[f"{g_},{j}"]
+            later[(g_, 1 - j)] = res[f"{g_},{1 - j}"]
+    diffs = []
+    for key, r in later.items():
+        for call, v in r.items():
+            if not same_result(v, first[key][call]):
+                diffs.append((key[0], key[1], call, v, first[key][call]))
+    return first, diffs
+
+
+def sequence_oracle(ctx, rng: random.Random, groups: list[dict], procs, prop: str, family: str) -> list[dict]:
+    """History independence: within this process the grids of each group are analysed interleaved (A, B, A again, calls
+    that raise, B again); every result must equal the result of the same call made first in a fresh interpreter."""
+    fails = []
+    try:
+        first, diffs = collect_fresh_references(procs, groups)
+    except Exception as e:  # noqa: BLE001
+        ctx.broken.append(f"sequence oracle: reference interpreters unavailable ({type(e).__name__}: {e})")
+        return fails
+    seen = set()
+
+    def judge(g_, j, call, got, where):
+        if (g_, call) in seen:
+            return
+        want = first[(g_, j)][call]
+        if not same_result(got, want):
+            seen.add((g_, call))
+            grp = groups[g_]
+            summ = (lambda v: v if not isinstance(v, list) else [x[:3] for x in v])
+            fails.append({"what": f"{call}: the result depends on earlier calls in the same process "
+                                  f"(grids sharing the shape and: {grp['kind']})", "method": call,
+                          "input": {**canon(grp["members"][j]), "analysed_before": canon(grp["members"][1 - j])["h"],
+                                    "schedule": where}, "got": json_safe(summ(got)), "want_fresh_state": json_safe(summ(want))})
+
+    for g_, j, call, v, w in diffs:  # second evaluations inside the reference interpreters
+        judge(g_, j, call, v, "fresh interpreter: the other grid of the group first, then this one")
+    for g_, grp in enumerate(groups):
+        order = [0, 1] if rng.random() < 0.5 else [1, 0]
+        schedule = [(order[0], "first call"), (order[1], "after the other grid of the group"),
+                    (order[0], "repeated after the other grid"), (None, "calls that raise"), (order[1], "repeated after failing calls")]
+        for j, where in schedule:
+            if j is None:
+                ctx.count("sequence_failing_calls", ",".join(failing_calls()))
+                continue
+            res = seq_calls(grp["members"][j], family)
+            ctx.case([prop, "sequence", grp["kind"], where, canon(grp["members"][j])])
+            ctx.count("sequence_step", where)
+            for call, v in res.items():
+                judge(g_, j, call, v, where)
+        ctx.count("sequence_group", grp["kind"])
+    return fails
+
+
+if __name__ == "__main__":  # reference interpreter of start_fresh_references
+    import json
+    import sys
+    job = json.load(sys.stdin)
+    res = {}
+    for g_, j in job["order"]:
+        res[f"{g_},{j}"] = seq_calls(job["groups"][g_]["members"][j], job.get("family", "all"))
+    json.dump(res, sys.stdout)
